@@ -78,7 +78,7 @@ ASSUMPTIONS = [
     "up to 150), labels in [-5,5] with two decimals",
 ]
 PROFILE = {
-    "quick": dict(examples=1200, shards=16, budget_s=110),
+    "quick": dict(examples=2500, shards=16, budget_s=100),
     "thorough": dict(examples=36000, shards=16, budget_s=1100),
 }
 
